@@ -181,6 +181,9 @@ pub enum Codec {
     VecOwned,
     VecRef,
     BoxSlice,
+    /// the JSON document read through `serde_json::from_reader` (owned strings) / through a `serde_json::Value`
+    JsonReader,
+    JsonValue,
 }
 
 pub fn via_bare<T: Serialize + DeserializeOwned>(v: &T) -> Result<T, String> {
@@ -192,12 +195,25 @@ pub fn via_json<T: Serialize + DeserializeOwned>(v: &T) -> Result<T, String> {
     serde_json::from_slice(&b).map_err(|e| format!("json decode: {}", e))
 }
 
+/// the JSON document read back through `serde_json::from_reader` (the deserializer hands out owned strings)
+pub fn via_json_reader<T: Serialize + DeserializeOwned>(v: &T) -> Result<T, String> {
+    let b = serde_json::to_vec(v).map_err(|e| format!("json encode: {}", e))?;
+    serde_json::from_reader(b.as_slice()).map_err(|e| format!("json from_reader: {}", e))
+}
+/// through a `serde_json::Value`
+pub fn via_json_value<T: Serialize + DeserializeOwned>(v: &T) -> Result<T, String> {
+    let val = serde_json::to_value(v).map_err(|e| format!("json to_value: {}", e))?;
+    serde_json::from_value(val).map_err(|e| format!("json from_value: {}", e))
+}
+
 pub fn transport_sk<C: Suite>(sk: &SecretKey<C>, c: Codec) -> Result<SecretKey<C>, String> {
     match c {
         Codec::None => Ok(sk.clone()),
         Codec::Bytes => SecretKey::<C>::try_from(Vec::<u8>::from(sk).as_slice()).map_err(|e| e.to_string()),
         Codec::Bare => via_bare(sk),
         Codec::Json => via_json(sk),
+        Codec::JsonReader => via_json_reader(sk),
+        Codec::JsonValue => via_json_value(sk),
         Codec::Be => Option::from(SecretKey::<C>::from_be_bytes(&sk.to_be_bytes())).ok_or("from_be_bytes None".to_string()),
         Codec::Le => Option::from(SecretKey::<C>::from_le_bytes(&sk.to_le_bytes())).ok_or("from_le_bytes None".to_string()),
         _ => Err("codec not offered".into()),
@@ -209,6 +225,8 @@ pub fn transport_pk<C: Suite>(pk: &PublicKey<C>, c: Codec) -> Result<PublicKey<C
         Codec::Bytes => PublicKey::<C>::try_from(Vec::<u8>::from(pk).as_slice()).map_err(|e| e.to_string()),
         Codec::Bare => via_bare(pk),
         Codec::Json => via_json(pk),
+        Codec::JsonReader => via_json_reader(pk),
+        Codec::JsonValue => via_json_value(pk),
         _ => Err("codec not offered".into()),
     }
 }
@@ -218,6 +236,8 @@ pub fn transport_sig<C: Suite>(s: &Signature<C>, c: Codec) -> Result<Signature<C
         Codec::Bytes => Signature::<C>::try_from(Vec::<u8>::from(s).as_slice()).map_err(|e| e.to_string()),
         Codec::Bare => via_bare(s),
         Codec::Json => via_json(s),
+        Codec::JsonReader => via_json_reader(s),
+        Codec::JsonValue => via_json_value(s),
         _ => Err("codec not offered".into()),
     }
 }
@@ -338,6 +358,8 @@ pub fn transport_sk_enum<C: Suite>(sk: &SecretKey<C>, c: Codec) -> Result<Secret
         Codec::Bytes => SecretKeyEnum::try_from(Vec::<u8>::from(&e).as_slice()).map_err(|x| x.to_string())?,
         Codec::Bare => via_bare(&e)?,
         Codec::Json => via_json(&e)?,
+        Codec::JsonReader => via_json_reader(&e)?,
+        Codec::JsonValue => via_json_value(&e)?,
         Codec::Be => Option::from(SecretKeyEnum::from_be_bytes(&e.to_be_bytes())).ok_or("SecretKeyEnum::from_be_bytes None".to_string())?,
         Codec::Le => Option::from(SecretKeyEnum::from_le_bytes(&e.to_le_bytes())).ok_or("SecretKeyEnum::from_le_bytes None".to_string())?,
         _ => return Err("codec not offered".into()),
